@@ -152,9 +152,11 @@ void ThreadPool::worker(size_t p)
             ++done_;
             --busy_;
 
-            // relock mutex before signaling condition.
+            // relock mutex before signaling condition. all waiters must be
+            // woken: several threads may block in loop_until_empty() or
+            // loop_until_terminate() with different predicates.
             lock.lock();
-            cv_finished_.notify_one();
+            cv_finished_.notify_all();
         }
     }
 }
